@@ -3,6 +3,7 @@
 package rhp
 
 import (
+	"encoding/binary"
 	"encoding/json"
 	"fmt"
 	"net"
@@ -87,6 +88,12 @@ func (h *c14Host) registerPT(pt rhp3.HostPriceTable) rhp3.HostPriceTable {
 	h.sh.priceTables.Register(pt)
 	return pt
 }
+
+// c14Raw is a message body sent verbatim.
+type c14Raw []byte
+
+func (r *c14Raw) EncodeTo(e *types.Encoder)   { e.Write(*r) }
+func (r *c14Raw) DecodeFrom(d *types.Decoder) {}
 
 // c14Progress notes which case is about to be sent to the handler, for the supervisor.
 func c14Progress(id int, p *c14Program) {
@@ -196,6 +203,17 @@ func TestVerifC14Exec(t *testing.T) {
 		} else {
 			p = w.generate(rng, false)
 		}
+		// a raw request: contract id, then an instruction count that no request can hold
+		var rawCount uint64
+		if id == c14Directed {
+			rawCount = 1 << 62
+		} else if id > c14Directed && rng.Intn(25) == 0 {
+			rawCount = []uint64{873813, 873814, 1 << 32, 1 << 62, ^uint64(0)}[rng.Intn(5)]
+		}
+		if rawCount != 0 {
+			p.prog = nil
+			p.attach, p.finalize = false, false
+		}
 		// keep amounts such that the account can pay
 		if p.amount.Cmp(types.Siacoins(1)) > 0 {
 			p.amount = types.Siacoins(1)
@@ -275,7 +293,15 @@ func TestVerifC14Exec(t *testing.T) {
 			if withContract {
 				req.FileContractID = cid
 			}
-			if rerr = s.WriteResponse(&req); rerr != nil {
+			if rawCount != 0 {
+				raw := make(c14Raw, 40)
+				copy(raw, req.FileContractID[:])
+				binary.LittleEndian.PutUint64(raw[32:], rawCount)
+				rerr = s.WriteResponse(&raw)
+			} else {
+				rerr = s.WriteResponse(&req)
+			}
+			if rerr != nil {
 				return
 			}
 			var cancel types.Specifier
@@ -337,8 +363,12 @@ func TestVerifC14Exec(t *testing.T) {
 		if !badFinal {
 			final = fmt.Sprintf("(Some %d%%N)", cur.Revision.RevisionNumber+1)
 		}
-		qTerm := fmt.Sprintf("{| qamount := %s; qcontract := %s; qprog := %s; qdata := %s; qpt := %s; qdur := %d; qfinal := %s |}",
-			coqCur(p.amount), coqBool(withContract), coqList(progTerms), p.d.coq(), c14PtCoq(p.pt), p.dur, final)
+		declared := uint64(len(p.prog))
+		if rawCount != 0 {
+			declared = rawCount
+		}
+		qTerm := fmt.Sprintf("{| qamount := %s; qcontract := %s; qdeclared := %d; qprog := %s; qdata := %s; qpt := %s; qdur := %d; qfinal := %s |}",
+			coqCur(p.amount), coqBool(withContract), declared, coqList(progTerms), p.d.coq(), c14PtCoq(p.pt), p.dur, final)
 		after, err := h.node.Contracts.Contract(cid)
 		if err != nil {
 			t.Fatal(err)
@@ -573,7 +603,7 @@ func TestVerifC14Fund(t *testing.T) {
 		case pan != nil:
 			res = "Panic"
 			em.Monitor("panic-"+site, fmt.Sprintf("%s: %v", op, pan))
-		case rerr != nil && strings.Contains(rerr.Error(), "base costs overflow"):
+		case rerr != nil && strings.Contains(rerr.Error(), "costs overflow"):
 			res = "(Err EInvalid)"
 			em.Count("renewcosts:overflow")
 		default:
